@@ -63,7 +63,6 @@ inductive SMsg where
   | accident (victim : Aid)
   | watch | unwatch
   | suspendMark | resumeMark
-  | lost                                      -- an un-wrapped system message (arrives as `nil`)
   deriving Repr, Inhabited, DecidableEq
 
 /-- what the user's `OnReceive` observes (`ctx.Message()`), with `ctx.Sender()` -/
@@ -139,7 +138,17 @@ structure BehDef where
   actorStrategy : Option Strategy := none   -- the actor value implements supervision.Strategy
   deriving Repr, Inhabited
 
+/-- global, totally ordered record of what happened (ghost; the harness records the same events) -/
+inductive Event where
+  | handled (a : Aid) (inc : Nat) (obs : Obs) (sender : Option Aid)
+  | failed (a : Aid)                                   -- a handler of `a` panicked
+  | decided (sup victim : Aid) (d : Directive) (count : Nat)
+  | spawned (parent child : Aid)
+  | watch (w t : Aid) | unwatch (w t : Aid)            -- the request was issued
+  deriving Repr, DecidableEq, Inhabited
+
 structure World where
+  events : List Event := []
   actors : List Actor := []
   behs : List BehDef := []
   timers : List (Aid × Aid) := []           -- armed restart timers (supervisor, victim), oldest first
@@ -168,34 +177,51 @@ def pushUser (t : Aid) (m : UMsg) (s : Option Aid) : M Unit :=
   modA t fun x => { x with userQ := x.userQ ++ [(m, s)], hasRunner := true }
 
 /-- `deliverySystemMessage(target, target, sender, nil, m)`. For an unknown / terminated target the
-message reaches `abyss.DeliverySystemMessage` WRAPPED, so its `case *messages.Watch` (which would answer
-a watch request with `Terminated`) never matches: every system message to the abyss is only logged. -/
+message goes to `abyss.DeliverySystemMessage`, which answers a `Watch` with `Terminated(target)`
+(sent to the watcher, sender = the watched address) and only logs everything else. -/
 def sendSys (t : Aid) (m : SMsg) (s : Option Aid) : M Unit := do
-  if isLive (← get) t then pushSys t m s else pure ()
+  let w ← get
+  if isLive w t then
+    -- `actorProcess.delivery`: the suspend / resume markers act on the mailbox at delivery time
+    -- (`mailbox.Suspend()`; `mailbox.Resume()` = clear the flag and `dispatch()`), they are not queued
+    match m with
+    | .suspendMark => modA t fun x => { x with suspended := true }
+    | .resumeMark => modA t fun x => { x with suspended := false, hasRunner := true }
+    | _ => pushSys t m s
+  else
+    match m, s with
+    | .watch, some sd => if isLive w sd then pushSys sd (.terminated t) (some t) else pure ()
+    | _, _ => pure ()
 
-/-- `abyss.DeliveryUserMessage(receiver, sender, …)`: every call is a dead letter (logged). The
-abyss receives the message WRAPPED, so its type switch that should drop dead-letter events and publish
-requests never matches; the only filter that works is "receiver is the subscription actor".
-Everything else is published on the dead-letter topic: `system.Publish` = `guard.Ask(subscription,
-LocalPublishRequest)`; if the subscription actor itself is gone that request is one more dead letter. -/
+/-- `abyss.DeliveryUserMessage(receiver, sender, …)`: every call is a dead letter (logged by the
+recording dead-letter process of the harness). Dead-letter events and publish requests are dropped;
+everything else that is not addressed to the subscription actor is published on the dead-letter
+topic: `system.Publish` = `guard.Ask(subscription, LocalPublishRequest)`; if the subscription actor
+itself is gone that request is one more (dropped) dead letter. -/
 def abyssUser (t : Aid) (m : UMsg) (s : Option Aid) : M Unit := do
   modify fun w => { w with dead := w.dead ++ [(s, t, m)] }
-  if t != 1 then do
-    let pub := UMsg.publish 0 (.dead s t m)
-    if isLive (← get) 1 then
-      modA 1 fun x => { x with userQ := x.userQ ++ [(pub, some 0)], hasRunner := true }
-    else modify fun w => { w with dead := w.dead ++ [(some 0, 1, pub)] }
+  match m with
+  | .publish _ _ | .dead _ _ _ => pure ()
+  | _ =>
+    if t != 1 then do
+      let pub := UMsg.publish 0 (.dead s t m)
+      if isLive (← get) 1 then
+        modA 1 fun x => { x with userQ := x.userQ ++ [(pub, some 0)], hasRunner := true }
+      else modify fun w => { w with dead := w.dead ++ [(some 0, 1, pub)] }
 
 /-- `deliveryUserMessage(target, target, sender, nil, m)`; unknown/terminated receivers resolve to
 the abyss -/
 def sendUser (t : Aid) (m : UMsg) (s : Option Aid) : M Unit := do
   if isLive (← get) t then pushUser t m s else abyssUser t m s
 
-def resolve (self : Aid) (x : Actor) : Target → Option Aid
+/-- addresses that were never registered ("ghosts") are kept apart from real actor ids: a scripted
+reference to actor `k` made while `k` does not exist denotes the address `ghost k` for ever -/
+def ghostBase : Nat := 500000
+def resolve (n : Nat) (self : Aid) (x : Actor) : Target → Option Aid
   | .self => some self
   | .parent => x.parent
   | .sender => x.curSender
-  | .actor a => some a
+  | .actor a => if a < n then some a else some (ghostBase + a)
 
 /-- `ctx.Terminate(target, gracefully)` -/
 def terminateReq (self t : Aid) (graceful : Bool) : M Unit :=
@@ -208,16 +234,17 @@ def spawnChild (parent : Aid) (beh : Nat) : M Aid := do
   let child : Actor := { beh := beh, parent := some parent }
   set ({ w with actors := w.actors ++ [child] } : World)
   modA parent fun x => { x with children := x.children ++ [id] }
+  modify fun w => { w with events := w.events ++ [.spawned parent id] }
   pushSys id .launch (some parent)
   return id
 
 def runAction (self : Aid) : Action → M Unit
   | .tell t tag => do
-      match resolve self (← getA self) t with
+      match resolve (← get).actors.length self (← getA self) t with
       | some t => sendUser t (.user tag) none
       | none => sendUser 1000000 (.user tag) none   -- nil target: not-found substitute
   | .ask t tag => do
-      match resolve self (← getA self) t with
+      match resolve (← get).actors.length self (← getA self) t with
       | some t => sendUser t (.user tag) (some self)
       | none => sendUser 1000000 (.user tag) (some self)
   | .reply tag => do
@@ -226,18 +253,25 @@ def runAction (self : Aid) : Action → M Unit
       | none => sendUser 1000000 (.user tag) (some self)
   | .spawn beh => do let _ ← spawnChild self beh
   | .kill t g => do
-      match resolve self (← getA self) t with
+      match resolve (← get).actors.length self (← getA self) t with
       | some t => terminateReq self t g
       | none => terminateReq self 1000000 g
   | .watch t => do
-      match resolve self (← getA self) t with
-      | some t => sendSys t .watch (some self)
+      -- (scripted actors never watch themselves: scenario-language restriction)
+      match resolve (← get).actors.length self (← getA self) t with
+      | some t => if t == self then pure () else do
+          modify fun w => { w with events := w.events ++ [.watch self t] }
+          sendSys t .watch (some self)
       | none => pure ()
   | .unwatch t => do
-      match resolve self (← getA self) t with
-      | some t => sendSys t .unwatch (some self)
+      match resolve (← get).actors.length self (← getA self) t with
+      | some t => if t == self then pure () else do
+          modify fun w => { w with events := w.events ++ [.unwatch self t] }
+          sendSys t .unwatch (some self)
       | none => pure ()
-  | .panic => throw ()
+  | .panic => do
+      modify fun w => { w with events := w.events ++ [.failed self] }
+      throw ()
 
 def runActions (self : Aid) : List Action → M Unit
   | [] => pure ()
@@ -249,6 +283,7 @@ def handle (self : Aid) (obs : Obs) : M Unit := do
   let w ← get
   let x ← getA self
   modA self fun x => { x with log := x.log ++ [{ inc := x.inc, obs := obs, sender := x.curSender }] }
+  modify fun w => { w with events := w.events ++ [.handled self x.inc obs x.curSender] }
   match (behOf w x).rules.find? (fun r => r.1.matches self obs) with
   | some r => runActions self r.2
   | none => pure ()
@@ -267,9 +302,12 @@ def tryTerminated (self : Aid) : M Unit := do
   if x.status ≠ .terminating then return
   modA self fun x => { x with status := .terminated }
   handle self (.terminated self)
+  sendSys self .resumeMark (some self)   -- a mailbox suspended by an accident drains into dead letters
   modA self fun x => { x with registered := false }      -- rc.Unregister → process.Terminate
   let x ← getA self
-  for wt in x.watchers do sendSys wt (.terminated self) (some self)
+  -- every watcher except the parent (which is notified right after)
+  for wt in x.watchers do
+    if some wt != x.parent then sendSys wt (.terminated self) (some self)
   match x.parent with
   | some p => sendSys p (.terminated self) (some self)
   | none => modify fun w => { w with closed := true }
@@ -307,6 +345,7 @@ def onTerminated (self : Aid) (who : Aid) : M Unit := do
 
 /-- `onRestart` -/
 def onRestart (self : Aid) : M Unit := do
+  if (← getA self).status ≠ .alive then return     -- CAS alive → restarting
   modA self fun x => { x with status := .restarting }
   handle self .restarting
   let x ← getA self
@@ -322,6 +361,7 @@ def escalate (self : Aid) (victim : Aid) : M Unit := do
 /-- `oneForOne.OnPolicyDecision(record)` with `record.Supervisor = self` -/
 def decide (self : Aid) (victim : Aid) (st : Strategy) : M Unit := do
   let v ← getA victim
+  modify fun w => { w with events := w.events ++ [.decided self victim (st.decide v.accidents) v.accidents] }
   match st.decide v.accidents with
   | .restart =>
       -- StandardExponentialBackoff = −1 ⇔ limit ≥ 0 ∧ count > limit (C18_stop_iff)
@@ -361,6 +401,12 @@ def onUnWatch (self : Aid) (sender : Option Aid) : M Unit :=
 /-- `ProcessSystemMessage` → `processMessage(…, true)` -/
 def sysTurn (self : Aid) (m : SMsg) (sender : Option Aid) : M Unit := do
   modA self fun x => { x with curSender := sender }
+  if (← getA self).status == .terminated then
+    -- a terminated actor handles nothing any more; watch requests are still answered
+    match m with
+    | .watch => onWatch self sender
+    | _ => pure ()
+  else
   match m with
   | .launch => userTurn self .launch sender        -- + recoveryPersistence (C09 sub-model)
   | .restarted => userTurn self .restarted sender
@@ -370,8 +416,7 @@ def sysTurn (self : Aid) (m : SMsg) (sender : Option Aid) : M Unit := do
   | .accident v => onAccident self v
   | .watch => onWatch self sender
   | .unwatch => onUnWatch self sender
-  | .suspendMark | .resumeMark => pure ()      -- arrive wrapped: no case matches, ignored
-  | .lost => modA self fun x => { x with curSender := none }   -- un-wrapped: (nil, nil, nil)
+  | .suspendMark | .resumeMark => pure ()      -- never queued (see `sendSys`)
 
 /-- built-in behaviour of the subscription actor for a local publish on the dead-letter topic -/
 def subPublish (inner : UMsg) (pubSender : Option Aid) : M Unit := do
@@ -463,8 +508,10 @@ def step (w : World) : Op → World
       | [] => w
       | (s, v) :: rest => extern (sendSys v .restart (some s)) { w with timers := rest }
   | .spawnTop beh => if w.crashed then w else extern (do let _ ← spawnChild 0 beh) w
-  | .tell t tag => if w.crashed then w else extern (sendUser t (.user tag) none) w
-  | .kill t g => if w.crashed then w else extern (terminateReq 0 t g) w
+  | .tell t tag => if w.crashed then w else
+      extern (sendUser (if t < w.actors.length then t else ghostBase + t) (.user tag) none) w
+  | .kill t g => if w.crashed then w else
+      extern (terminateReq 0 (if t < w.actors.length then t else ghostBase + t) g) w
   | .shutdown g => if w.crashed then w else extern (terminateReq 0 0 g) w
   | .subscribeDead a => { w with deadSubs := w.deadSubs ++ [a] }
 
